@@ -22,7 +22,13 @@ class C03(flow.Spec):
 
     def gen_cases(self, rng, tier):
         n = {'quick': 700, 'thorough': 20000, 'search': 2500}[tier]
-        return [pc.gen_pmm_case(rng, 3, big_drain=(0.02 if tier == 'thorough' else 0.0)) for _ in range(n)]
+        cases = [pc.gen_pmm_case(rng, 3, big_drain=(0.02 if tier == 'thorough' else 0.0),
+                                 long16=(0.0015 if tier == 'thorough' else 0.0)) for _ in range(n)]
+        if tier != 'thorough':
+            # two very long histories (operation counts crossing 2^16) per run
+            for _ in range(2):
+                cases.insert(rng.randrange(len(cases)), pc.gen_long_history(rng, 3, 1 << 16, short=True))
+        return cases
 
     def classify(self, nums, note):
         return note
